@@ -2,8 +2,8 @@
    The round trip is stated for the shape that filling with breaks at spaces only
    produces: [filled ii si le groups] = the lines (indent_k ++ words of group k joined by
    single spaces) joined by the line ending, for ANY partition [groups] of the words —
-   hence for either algorithm and any width.  (That fill produces this shape is the
-   specialisation of C01 proved in Props/C01.v.) *)
+   hence for either algorithm and any width; C15_unfill_inverts_fill below composes it
+   with the fact that fill produces this shape (Proofs/FillShape.v). *)
 From TW Require Import Refill.
 From TW Require Import UnfillFacts.
 
@@ -43,6 +43,28 @@ Theorem C15_line_ending : forall (cw : char -> N) text u, unfill cw text = Some 
    Forall (fun p => last_opt p = Some CR) (removelast (split_lf text))).
 Proof. exact unfill_le_crlf. Qed.
 
+(* the same, with fill itself: for a paragraph of space-separated words (non-empty, no
+   space/CR/LF, not starting with a prefix character), breaks at spaces only (ASCII
+   separator, no splitter, break_words off), ANY width, either algorithm (any oracle that
+   returns a partition), either line ending, with or without a trailing line ending:
+   unfill (fill o para ++ tail) returns the paragraph (plus the tail), the initial indent,
+   with at least two lines the subsequent indent and the line ending, and the width of
+   the widest line *)
+From TW Require Import Pipeline FillShape.
+Theorem C15_unfill_inverts_fill : forall cw alnum lbc custom_sp ofit o (words : list str),
+  o_bw o = false -> o_spl o = SplNone -> o_sep o = SepAscii -> OfitOK ofit ->
+  Forall word_ok words -> words <> [] -> pchars (o_ii o) -> pchars (o_si o) ->
+  forall ht : bool,
+  exists groups, concat groups = words /\
+    fill cw alnum lbc custom_sp ofit o (join [SP] words) = Some (filled (o_ii o) (o_si o) (o_le o) groups) /\
+    unfill cw (filled (o_ii o) (o_si o) (o_le o) groups ++ (if ht then le_str (o_le o) else [])) =
+    Some (mkUnfilled (join [SP] words ++ (if ht then le_str (o_le o) else []))
+                     (max_width cw (filled_lines (o_ii o) (o_si o) groups))
+                     (o_ii o) (if many groups then o_si o else [])
+                     (if many groups || ht then o_le o else LE_LF)).
+Proof. exact unfill_fill. Qed.
+
+Print Assumptions C15_unfill_inverts_fill.
 Print Assumptions C15_roundtrip.
 Print Assumptions C15_total.
 Print Assumptions C15_structure.
